@@ -256,9 +256,10 @@ def pipeline_step(ctx, name, lib, smi, sp, pipe, first=True):
 
 
 def replay(ctx, rec):
+    r = P.replay_record(ctx, rec)
+    if r is not None:
+        return r
     inp = rec.get('input', rec)
-    if inp.get('pipeline'):
-        return P.replay(ctx, inp)
     before = len(ctx.violations) + sum(k['count'] for k in ctx.known_seen.values())
     libs_ = dict(S.load_schemes())
     lib = libs_[inp['scheme']]
